@@ -29,8 +29,9 @@ FRAME_TRUSTED = ["Go slice model: contents + absolute indexing; an index outside
 
 PROPS["C02"] = {
     "level_text": "Theorems (Props/C02.v) over the Gallina model of message.go: validate m = VOk <-> wf_frame m for every byte string, no out-of-bounds index, every single-byte corruption of a well-formed frame rejected, accessors in bounds, rendering total - general proofs by case analysis and modular arithmetic, no bound on length. The model is tied to the compiled code by bounded-exhaustive (protocol alphabet) and random differential correspondence at both slice capacities, and the client clause by stream-level correspondence.",
-    "level_note": "Trusted: Coq kernel, hand-written model of message.go (validated by correspondence, not generated), Go slice model, harness. No axioms.",
+    "level_note": "Trusted: Coq kernel, hand-written model of message.go (validated by correspondence, not generated), Go slice model, harness. No axioms. For Message.Validate, Checksum and the accessors: Tie T (Tie/BytesAgree.v): the function as REGENERATED statement by statement from the Go source on every run (Gen/Bytes.v, every index/slice a possible panic) is proved equal to the hand-written model on every input, so the theorems speak about the current source; the correspondence runs then only validate the translator and the slice-capacity abstraction.",
     "technique": "Rocq proof over hand-written Gallina model + exhaustive/differential correspondence (vm_compute)",
+    "tie_files": ["Tie/BytesAgree.v"],
     "props_file": "Props/C02.v",
     "eval_modules": ["Run.EvalFrame", "Run.EvalClient"],
     "imports": ["XS.Lib.Bufio", "XS.Spec.ClientOps"],
@@ -46,8 +47,9 @@ PROPS["C02"] = {
 
 PROPS["C06"] = {
     "level_text": "Theorems (Props/C06.v): for every identifier and every payload of 0..2048 bytes new_message yields a wf_frame that validate accepts, whose accessors read back identifier/length/payload, extended exactly from 255 bytes, zero checksum, and which the reference segmentation (to which C01 reduces every read fragmentation) delivers unchanged; is_error/error_code characterised on every accepted frame. General proofs. Correspondence: every payload length 0..2048 (thorough; quick: every length to 300 then every 9th) and all 256 error codes against NewMessage/Validate/bufio.Scanner.",
-    "level_note": "Trusted: Coq kernel, hand-written model of NewMessage (validated by correspondence), harness. No axioms.",
+    "level_note": "Trusted: Coq kernel, hand-written model of NewMessage (validated by correspondence), harness. No axioms. For Message.Validate and ScanMessages: Tie T (Tie/BytesAgree.v): the function as REGENERATED statement by statement from the Go source on every run (Gen/Bytes.v, every index/slice a possible panic) is proved equal to the hand-written model on every input, so the theorems speak about the current source; the correspondence runs then only validate the translator and the slice-capacity abstraction.",
     "technique": "Rocq proof over hand-written Gallina model + exhaustive-by-length correspondence (vm_compute)",
+    "tie_files": ["Tie/BytesAgree.v"],
     "props_file": "Props/C06.v",
     "eval_module": "Run.EvalFrame",
     "kinds": {"newmsg": {"type": "case_newmsg", "chk": "chk_newmsg", "sig": "sig_newmsg", "scope": "N_scope"}},
@@ -58,8 +60,9 @@ PROPS["C06"] = {
 
 PROPS["C07"] = {
     "level_text": "Theorems (Props/C07.v): packet_at returns exactly sub payload i (3+len) or 'insufficient', never out of bounds, for every payload and every offset; the returned packet lies inside the payload; walking a concatenation of packets recovers exactly them and ends at the payload's end (induction over the packet list); each step consumes >= 3 bytes; the constructor is correct for all lengths 0..255 and identifiers. Correspondence: alphabet-exhaustive payloads x all offsets x both capacities, random walks, all 256 constructor lengths.",
-    "level_note": "Trusted: Coq kernel, hand-written model of mtdata2.go (validated by correspondence), Go slice model, harness. No axioms.",
+    "level_note": "Trusted: Coq kernel, hand-written model of mtdata2.go (validated by correspondence), Go slice model, harness. No axioms. For MTData2.PacketAt: Tie T (Tie/BytesAgree.v): the function as REGENERATED statement by statement from the Go source on every run (Gen/Bytes.v, every index/slice a possible panic) is proved equal to the hand-written model on every input, so the theorems speak about the current source; the correspondence runs then only validate the translator and the slice-capacity abstraction.",
     "technique": "Rocq proof (induction over packet lists) over hand-written Gallina model + exhaustive/differential correspondence",
+    "tie_files": ["Tie/BytesAgree.v"],
     "props_file": "Props/C07.v",
     "eval_module": "Run.EvalFrame",
     "kinds": {
@@ -77,8 +80,9 @@ STREAM_TRUSTED = ["model of bufio.Scanner.Scan (Go 1.23.5, default 64 KiB limit)
 
 PROPS["C01"] = {
     "level_text": "Theorems (Props/C01.v), no bound on stream length, number of frames or schedule: (1) a stream of well-formed frames separated by pair-free noise has exactly those frames as its reference segmentation (induction over the frame list); (2) for every byte stream, every schedule of read sizes >= 0 with at most 100 consecutive empty reads, every terminal error and both (n, err) conventions, the statement-level model of bufio.Scanner.Scan composed with the model of ScanMessages delivers exactly the reference segmentation then the terminal error (induction on fuel with the buffer-geometry invariant), hence any two schedules agree. Models tied to ScanMessages and to the real bufio.Scanner by alphabet-exhaustive streams x all partitions and random streams x schedule families.",
-    "level_note": "Trusted: Coq kernel; hand-written models of ScanMessages and of bufio.Scanner.Scan + chunking reader (validated by correspondence on every run); harness. No axioms. The error-with-data convention is proved when the reference segmentation does not end in TooLong (K1 shape).",
+    "level_note": "Trusted: Coq kernel; hand-written models of ScanMessages and of bufio.Scanner.Scan + chunking reader (validated by correspondence on every run); harness. No axioms. The error-with-data convention is proved when the reference segmentation does not end in TooLong (K1 shape). For the split function ScanMessages: Tie T (Tie/BytesAgree.v): the function as REGENERATED statement by statement from the Go source on every run (Gen/Bytes.v, every index/slice a possible panic) is proved equal to the hand-written model on every input, so the theorems speak about the current source; the correspondence runs then only validate the translator and the slice-capacity abstraction.",
     "technique": "Rocq proof by induction (fuel, geometry invariant) over Gallina models of ScanMessages and bufio.Scanner + exhaustive-partition/differential correspondence",
+    "tie_files": ["Tie/BytesAgree.v"],
     "props_file": "Props/C01.v",
     "eval_modules": ["Run.EvalStream", "Run.EvalClient"],
     "imports": ["XS.Lib.Bufio", "XS.Spec.ClientOps"],
